@@ -20,7 +20,7 @@ CONSTANTS
 RULES = {
     "C01": ["P_C01", "T_C01tok", "T_C01hit", "T_C01same", "T_nopanic"],
     "C02": ["P_C02", "T_C02hop", "T_C02noI", "T_C02once", "T_C02dead", "T_nopanic"],
-    "C07": ["P_C07", "T_C07wire", "T_C07cs", "T_C07cap", "T_nopanic"],
+    "C07": ["P_C07", "T_C07wire", "T_C07cs", "T_C07cap", "T_C07probe", "T_nopanic"],
     "C08": ["P_C08", "T_C08size", "T_C08dead", "T_C08sched", "T_C08quiet", "T_nopanic"],
     "C09": ["P_C09", "T_C09obs", "T_C09drop", "T_C09scope", "T_nopanic"],
 }
